@@ -571,6 +571,8 @@ def route_of(spec):
     every parameter and 1 in 5 by modifying the held coordinate/angle/metadata objects in place."""
     import json
     import zlib
+    if spec.get('route'):
+        return spec['route']        # the driver fixes the route (e.g. very large shapes, whose 'used before' state would cost seconds)
     if spec.get('size_dtype') or spec.get('vertex_dtype'):
         return 'fresh'          # typed sizes are a property of the construction call itself
     h = zlib.crc32(json.dumps(spec, sort_keys=True, default=repr).encode())
